@@ -4,7 +4,8 @@
 (*   (V1-V5), or rectilinear - horizontal edges, coincident and touching edges included (V1-V3, V5).  *)
 (* Event Ael  : the active edge list recorded by hook H1 right after the local minima at          *)
 (*   scanline y were inserted: for each edge, left to right,                                       *)
-(*   <<y, bot.x, bot.y, top.x, top.y, curr_x, wind_dx, wind_cnt, wind_cnt2, ptype, open, hot, ct, fr>>  *)
+(*   <<y, bot.x, bot.y, top.x, top.y, curr_x, wind_dx, wind_cnt, wind_cnt2, ptype, open, hot,            *)
+(*     index of the output ring the edge is building, 1 front / 2 back edge of that ring>>             *)
 (* The specification derives what that state must be from the input geometry alone:               *)
 (*   V1 the AEL holds exactly the input edges that span the scanbeam below y (top.y < y <= bot.y), *)
 (*      each with the direction flag the engine's convention gives it (wind_dx = +1 iff the path    *)
@@ -14,6 +15,10 @@
 (*      same-type / other-type edges to the left (the regions' true windings)                      *)
 (*   V4 an edge is hot (has an output ring) iff ContribTable!ContribClosed holds for it            *)
 (*   V5 the windings return to 0 to the right of the last edge                                     *)
+(*   V8 every output ring under construction is held by exactly two active edges, its front and its  *)
+(*      back edge (general position)                                                                 *)
+(*   V9 the rings under construction are curves in the swept half-plane that do not cross: the pairs  *)
+(*      of positions of their two edges in the AEL are properly nested or disjoint, never interleaved *)
 (* Event Isects (hook H2): every intersection ProcessIntersectList processed during one Execute,  *)
 (*   <<e1.bot, e1.top, e2.bot, e2.top, pt, bottom y, top y of the scanbeam>> in processing order      *)
 (*   V6 in general position the sweep swaps exactly the pairs of input edges that properly cross,    *)
@@ -62,6 +67,15 @@ TAel ==
          \* V4 only in general position: with coincident or touching edges (rectilinear walks) which of two coincident edges is hot is the engine's choice
          /\ (cs.gp => Chk(bad4 = {}, "ENGINE", "V4_hot_flag_differs_from_contribution_table", IF bad4 = {} THEN 0 ELSE CHOOSE j \in bad4 : TRUE))
          /\ Chk(SumDx(A, n + 1, 0) = 0 /\ SumDx(A, n + 1, 1) = 0, "ENGINE", "V5_windings_do_not_close", y)
+         /\ (cs.gp => LET hot == {j \in 1..n : A[j][12] = 1}
+                           rings == {A[j][13] : j \in hot}
+                           of(r) == {j \in hot : A[j][13] = r}
+                           bad8 == {r \in rings : ~(Cardinality(of(r)) = 2 /\ {A[j][14] : j \in of(r)} = {1, 2})}
+                           lo(r) == CHOOSE j \in of(r) : \A k \in of(r) : j <= k
+                           hi(r) == CHOOSE j \in of(r) : \A k \in of(r) : j >= k
+                           bad9 == {pr \in (rings \ bad8) \X (rings \ bad8) : lo(pr[1]) < lo(pr[2]) /\ lo(pr[2]) < hi(pr[1]) /\ hi(pr[1]) < hi(pr[2])}
+                       IN /\ Chk(bad8 = {} /\ \A j \in 1..n : (A[j][12] = 1) = (A[j][13] >= 0), "ENGINE", "V8_ring_not_held_by_front_and_back_edge", IF bad8 = {} THEN -1 ELSE CHOOSE r \in bad8 : TRUE)
+                          /\ Chk(bad9 = {}, "ENGINE", "V9_rings_under_construction_interleave", IF bad9 = {} THEN 0 ELSE CHOOSE pr \in bad9 : TRUE))
 TIsects ==
   /\ Ev.e = "Isects"
   /\ UNCHANGED cs
